@@ -7,3 +7,5 @@ package go9p
 func verifPoint(point string, obj interface{}, a, b uint32) {}
 
 func verifB(b bool) uint32 { return 0 }
+
+func verifRkind(t, r uint8) uint32 { return 0 }
